@@ -118,6 +118,7 @@ func runCW(hold int, pk []pkt) (caseStr, obs string) {
 	select {
 	case <-done:
 	case <-time.After(20 * time.Second):
+		timeouts++
 		return caseStr, "timeout"
 	}
 	g.mu.Lock()
@@ -143,6 +144,7 @@ func genCW(out *vc.Out, r *vc.Rand, thorough bool) {
 					}
 					c, o := runCW(hold, pk)
 					out.Case(c, o, c[:min(len(c), 120)])
+					abortIfStuck(out)
 					out.Count("cw:hold-" + fmt.Sprint(hold))
 				}
 			}
@@ -165,4 +167,5 @@ func replayCW(out *vc.Out, toks []string) {
 	}
 	c, o := runCW(hold, pk)
 	out.Case(c, o, "")
+	abortIfStuck(out)
 }
